@@ -22,6 +22,7 @@ META = {
     "not_decided": "map semantics over operation histories (lookup results, iteration order)",
     "assumptions": ["Memory::AlignSize returns a power of two >= its argument (checked under C14's memory rules)"],
 }
+META["explanation"] += " " + '(SB-eqlen, shared with C15) key equality is length-checked.'
 META["explanation"] += " " + '(SB-keypair) a key object is forwarded as (First(), Length()) of the same object, never as First() alone. PR-rehash additionally: copyTable records as size the counter stepped once per constructed item; after a range Dispose of items every path rebuilds or clears the chains.'
 META["explanation"] += " " + "PR-capacity's guard form is decided on the CFG: the insert is dominated by the test Size() == Capacity() and reached over its false edge or, over its true edge, only after expand(). (HC-confirm) an equality with a stored hash decides a match only together with a key comparison."
 
@@ -404,6 +405,8 @@ def run(ctx):
     rules.append(r)
     rules.append(rule_hash_confirm(ctx, m))
     rules.append(rule_key_pair(ctx, m))
+    from rules.common import rule_equal_lengths
+    rules.append(rule_equal_lengths(ctx, m))
     return rules
 
 
